@@ -24,4 +24,4 @@ CLAIM = """Static decision of the structural conditions under which skipping is 
 rare-byte builder, exact candidate arithmetic of every prefilter implementation, the conditions under which each prefilter kind may
 be built, alignment of packed pattern ids with the automaton's, and the guard / monotonicity structure of both use sites."""
 NOTE = """Trusted: rustc MIR construction, the fact extractor, memchr/memmem contracts."""
-TECHNIQUE = "static analysis: closure inlining and term matching, decision tables, graph-cut / dominance queries over rustc MIR"
+TECHNIQUE = "static analysis: path summaries (spelling-independent decision tables) of the prefilter builder and the eight find_in contracts, iteration summaries of the trie loop, graph-cut / dominance queries over rustc MIR"
